@@ -1,13 +1,17 @@
 //! C07 — paged iteration yields every row exactly once, in order, then ends.
 //!
-//! The real single-connection pager (`Connection::execute_iter` -> `QueryPager` -> `rows_stream`) runs
-//! against the scripted mock node: the case line is the server's page script (rows per page, paging state
-//! returned with each page, faults injected before a page is served) and the consumer's behaviour.
+//! The real pagers run against the scripted mock node: `pg` = the single-connection pager
+//! (`Connection::execute_iter` -> `SingleConnectionPagingExecutor` -> `QueryPager` -> `rows_stream`),
+//! `sess` = `Session::execute_iter` (`PagingExecutor`, default execution profile) on a one-node mock
+//! cluster (the handler also answers the control connection's system.peers / system.local queries).
+//! The case line is the server's page script (rows per page, paging state returned with each page,
+//! faults injected before a page is served) and the consumer's behaviour.
 //!
-//! Case: `pg <skip 0|1> <eager|slow|drop<k>> <page> <page> ...`, page = `<rows>:<state>:<faults>`;
+//! Case: `pg|sess <skip 0|1> <eager|slow|drop<k>> <page> <page> ...`, page = `<rows>:<state>:<faults>`;
 //! state `.` = none (no more pages), `-` = empty byte string, else hex; rows are numbered 0,1,2,...
 //! across the pages (one `int` column). Faults (letters, consumed one per incoming EXECUTE of that page,
-//! `d` excepted): `u` UNPREPARED, `o` Overloaded, `r` ReadTimeout, `s` ServerError, `c` close the
+//! `d` excepted): `u` UNPREPARED, `o` Overloaded, `r` ReadTimeout (too few replies), `R` ReadTimeout with
+//! enough replies but no data (the one the default retry policy retries), `s` ServerError, `c` close the
 //! connection, `T` answer later than the request timeout, `v` RESULT/Void, `d` short delay then go on.
 //!
 //! Output: `rows=<delivered> fin=<end | err:<e>+end | ctor:<e> | dropped> log=<paging state of every EXECUTE>`.
@@ -25,11 +29,12 @@ use scylla::statement::unprepared::Statement;
 use scylla::verif_hooks::connection::{VerifConn, VerifConnOptions};
 use std::cell::RefCell;
 use std::collections::VecDeque;
+use std::sync::atomic::{AtomicUsize, Ordering};
 use std::sync::{Arc, Mutex};
 use std::time::Duration;
 
-const REQUEST_TIMEOUT: Duration = Duration::from_millis(700);
-const LATE: Duration = Duration::from_millis(2500);
+const REQUEST_TIMEOUT: Duration = Duration::from_millis(1200);
+const LATE: Duration = Duration::from_millis(3500);
 const QUERY: &str = "SELECT a FROM ks.t";
 
 // ---------------------------------------------------------------------------------------------
@@ -198,9 +203,14 @@ fn body_node_rows(local: bool, no_metadata: bool) -> Vec<u8> {
     b
 }
 
-fn handler(script: Arc<Mutex<Script>>) -> Handler {
+fn handler(script: Arc<Mutex<Script>>, min_conn: Arc<AtomicUsize>) -> Handler {
     let mut control: Vec<(Vec<u8>, bool)> = Vec::new(); // prepared id -> is system.local
     Box::new(move |req: &Request| match &req.parsed {
+        // a straggler of an earlier case (its connection was abandoned after a drop / close / timeout)
+        // must not consume the current case's script
+        Parsed::Execute { .. } | Parsed::Prepare { .. } if req.conn < min_conn.load(Ordering::SeqCst) => {
+            vec![Action::Respond(RESP_ERROR, body_error(0x1001, "stale connection", &[]))]
+        }
         Parsed::Prepare { text } if text.contains("system.peers") || text.contains("system.local") => {
             let local = text.contains("system.local");
             let id = md5ish(text);
@@ -311,6 +321,7 @@ enum Client {
 struct Env {
     node: MockNode,
     script: Arc<Mutex<Script>>,
+    min_conn: Arc<AtomicUsize>,
     conn: Option<(Client, PreparedStatement)>,
 }
 
@@ -369,8 +380,9 @@ async fn run_case(case: &Case, ctx: &mut Ctx) -> String {
     let mut env = if case.session { SENV.with(|e| e.borrow_mut().take()) } else { ENV.with(|e| e.borrow_mut().take()) };
     if env.is_none() {
         let script = Arc::new(Mutex::new(Script::default()));
-        let node = MockNode::start(false, None, handler(Arc::clone(&script))).await;
-        env = Some(Env { node, script, conn: None });
+        let min_conn = Arc::new(AtomicUsize::new(0));
+        let node = MockNode::start(false, None, handler(Arc::clone(&script), Arc::clone(&min_conn))).await;
+        env = Some(Env { node, script, min_conn, conn: None });
     }
     let mut env = env.unwrap();
     {
@@ -383,6 +395,8 @@ async fn run_case(case: &Case, ctx: &mut Ctx) -> String {
     }
     env.node.log.lock().unwrap().clear();
     if env.conn.is_none() {
+        // connections accepted so far belong to abandoned clients
+        env.min_conn.store(env.node.conn_shards().len(), Ordering::SeqCst);
         let mut st = Statement::new(QUERY);
         st.set_page_size(5000);
         if case.session {
@@ -430,7 +444,7 @@ async fn run_case(case: &Case, ctx: &mut Ctx) -> String {
         sc.execs.clear();
     }
     let has_timeout_fault = case.pages.iter().any(|p| p.faults.contains(&'T'));
-    let dirty = case.pages.iter().any(|p| p.faults.contains(&'T') || p.faults.contains(&'c'));
+    let dirty = case.pages.iter().any(|p| p.faults.contains(&'T') || p.faults.contains(&'c')) || matches!(case.consumer, Consumer::Drop(_));
     let (conn, prepared0) = env.conn.as_ref().unwrap();
     let mut prepared = prepared0.clone();
     prepared.set_use_cached_result_metadata(case.skip);
